@@ -1455,3 +1455,76 @@ mutant("c10-ackhandler-built-before-check", "C10", "C10-D6", "handler.go",
 	}
 
 	return &ackHandler{""")
+
+# ---------------------------------------------------------------- C11
+mutant("c11-uint32-for-64", "C11", "C11-D2", "engine.io/transport/webtransport/packet.go",
+       "n := binary.BigEndian.Uint64(header[:])", "n := uint64(binary.BigEndian.Uint32(header[:]))")
+mutant("c11-reader-threshold", "C11", "C11-D2", "engine.io/transport/webtransport/packet.go",
+       "			if expectedLen < 126 {", "			if expectedLen <= 126 {")
+mutant("c11-reader-mask", "C11", "C11-D2", "engine.io/transport/webtransport/packet.go",
+       "expectedLen = int(firstByte[0] & 0x7f)", "expectedLen = int(firstByte[0] & 0xff)")
+mutant("c11-reader-flag", "C11", "C11-D2", "engine.io/transport/webtransport/packet.go",
+       "isBinary = firstByte[0]&0x80 == 0x80", "isBinary = firstByte[0]&0x40 == 0x40")
+mutant("c11-reader-16-64-swapped", "C11", "C11-D2", "engine.io/transport/webtransport/packet.go",
+       "			} else if expectedLen == 126 {", "			} else if expectedLen == 127 {")
+mutant("c11-reader-state-loop", "C11", "C11-D2", "engine.io/transport/webtransport/packet.go",
+       """			expectedLen = int(binary.BigEndian.Uint16(header[:]))
+			state = ReadPayload""",
+       """			expectedLen = int(binary.BigEndian.Uint16(header[:]))
+			state = ReadHeader""")
+mutant("c11-writer-threshold126", "C11", "C11-D2", "engine.io/transport/webtransport/packet.go",
+       "	if encodedLen < 126 {", "	if encodedLen < 127 {")
+mutant("c11-writer-threshold65536", "C11", "C11-D1", "engine.io/transport/webtransport/packet.go",
+       "	} else if encodedLen < 65536 {", "	} else if encodedLen <= 65536 {")
+mutant("c11-writer-markers-swapped", "C11", "C11-D2", "engine.io/transport/webtransport/packet.go",
+       "		header[0] = 126\n", "		header[0] = 127\n")
+mutant("c11-writer-no-binary-flag", "C11", "C11-D2", "engine.io/transport/webtransport/packet.go",
+       """	if packet.IsBinary {
+		header[0] |= 0x80
+	}
+""", "")
+mutant("c11-writer-put32", "C11", "C11-D2", "engine.io/transport/webtransport/packet.go",
+       "binary.BigEndian.PutUint64(header[1:], uint64(encodedLen))", "binary.BigEndian.PutUint32(header[1:], uint32(encodedLen))")
+mutant("c11-writer-little-endian", "C11", "C11-D2", "engine.io/transport/webtransport/packet.go",
+       "binary.BigEndian.PutUint16(header[1:], uint16(encodedLen))", "binary.LittleEndian.PutUint16(header[1:], uint16(encodedLen))")
+mutant("c11-encodedlen-no-type-byte", "C11", "C11-D3", "engine.io/parser/packet.go",
+       "	return 1 + len(p.Data)\n}", "	return len(p.Data)\n}")
+mutant("c11-encodedlen-raw-base64", "C11", "C11-D3", "engine.io/parser/packet.go",
+       "return 1 + base64.StdEncoding.EncodedLen(len(p.Data))", "return 1 + base64.RawStdEncoding.EncodedLen(len(p.Data))")
+mutant("c11-encoder-not-closed", "C11", "C11-D3", "engine.io/parser/packet.go",
+       "			defer encoder.Close()\n", "")
+mutant("c11-payload-len-sep-after-last", "C11", "C11-D3", "engine.io/parser/payload.go",
+       """		// Seperator
+		if i != len(packets)-1 {""",
+       """		// Seperator
+		if i != len(packets) {""")
+mutant("c11-payload-sep-before-first", "C11", "C11-D3", "engine.io/parser/payload.go",
+       "if i != len(packets)-1 {", "if i != len(packets)-2 {", count=0)
+mutant("c11-send-encode-text", "C11", "C11-D3", "engine.io/transport/webtransport/packet.go",
+       "return packet.Encode(w, true)", "return packet.Encode(w, false)")
+mutant("c11-delimiter-31", "C11", "C11-D4", "engine.io/parser/payload.go",
+       "const payloadDelimiter byte = 30", "const payloadDelimiter byte = 31")
+mutant("c11-ping-pong-swapped", "C11", "C11-D4", "engine.io/parser/packet.go",
+       "	PacketTypePing\n	PacketTypePong\n", "	PacketTypePong\n	PacketTypePing\n")
+mutant("c11-fromchar-accepts-7", "C11", "C11-D4", "engine.io/parser/packet.go",
+       "if b < 48 || b > byte(48+packetTypeMax) {", "if b < 48 || b > byte(49+packetTypeMax) {")
+mutant("c11-tochar-offset", "C11", "C11-D4", "engine.io/parser/packet.go",
+       "	b += 48\n", "	b += 47\n")
+mutant("c11-base64-prefix-upper", "C11", "C11-D4", "engine.io/parser/packet.go",
+       "const base64Prefix byte = 'b'", "const base64Prefix byte = 'B'")
+mutant("c11-decode-no-len-check", "C11", "C11-D1", "engine.io/parser/packet.go",
+       """	if len(data) < 1 {
+		return nil, errInvalidPacketSize
+	}
+
+	packetType := data[0]""",
+       """	packetType := data[0]""")
+mutant("c11-base64-slice-plus-one", "C11", "C11-D1", "engine.io/parser/packet.go",
+       "packet.Data = packet.Data[:n]", "packet.Data = packet.Data[:n+1]")
+mutant("c11-no-maxint32-check", "C11", "C11-D1", "engine.io/transport/webtransport/packet.go",
+       "			if n > math.MaxInt32 {", "			if n > math.MaxUint32 {")
+mutant("c11-limit-check-removed", "C11", "C11-D5", "engine.io/transport/webtransport/packet.go",
+       """			if limit > 0 && int64(expectedLen) > limit {
+				return nil, ErrLimitReached
+			}
+""", "")
